@@ -192,23 +192,30 @@ Qed.
 Lemma digit_tok_inv : forall set t, digit_tok set t -> exists cat c, t = Ch cat c /\ has_macro cat = false /\ memz c set = true /\ cat <> 10.
 Proof. intros set t (cat & c & -> & Hc & Hm). exists cat, c. repeat split; auto using has_macro_11_12. destruct Hc; lia. Qed.
 
-(* what readSequence leaves: the next token, expanded; a blank is taken when optspace *)
+(* what readSequence leaves: a token that is not expanded while a number is scanned stays as it is; otherwise the next token,
+   expanded; a blank is taken when optspace *)
 Definition seq_rest (lvl : Z) (optspace : bool) (rest : list tok) : list tok :=
   match rest with
   | [] => []
-  | t :: r => match expand1 lvl t with
+  | t :: r => if stops_unexpanded t then rest else
+              match expand1 lvl t with
               | Some (Ch cat c) => if optspace && (cat =? 10) then r else Ch cat c :: r
               | Some t' => t' :: r
               | None => rest
               end
   end.
 
-(* the token after the digits exists in the Model and is not one more digit *)
+(* the token after the digits ends the run: it is one that is left unexpanded, or it exists in the Model and is not one more
+   digit *)
 Definition ends_run (lvl : Z) (set : list Z) (rest : list tok) : Prop :=
   match rest with
   | [] => True
-  | t :: _ => exists t', expand1 lvl t = Some t' /\ match t' with Ch _ c => memz c set = false | Cs _ _ => True end
+  | t :: _ => stops_unexpanded t = true \/
+              exists t', expand1 lvl t = Some t' /\ match t' with Ch _ c => memz c set = false | Cs _ _ => True end
   end.
+
+Lemma plain_not_stop : forall cat c, has_macro cat = false -> stops_unexpanded (Ch cat c) = false.
+Proof. intros cat c H. exact H. Qed.
 
 Lemma read_sequence_run : forall lvl set optspace ds rest,
   Forall (digit_tok set) ds -> ends_run lvl set rest ->
@@ -216,10 +223,11 @@ Lemma read_sequence_run : forall lvl set optspace ds rest,
 Proof.
   intros lvl set optspace ds rest Hds Hend. induction Hds as [|d ds Hd Hds IH].
   - cbn [app codes map]. destruct rest as [|t r]; [reflexivity|].
-    cbn [read_sequence seq_rest]. destruct Hend as (t' & He & Ht'). rewrite He.
+    cbn [read_sequence seq_rest]. destruct (stops_unexpanded t) eqn:Es; [reflexivity|].
+    destruct Hend as [Hs|(t' & He & Ht')]; [congruence|]. rewrite He.
     destruct t' as [cat c|k e]; [|reflexivity]. rewrite Ht'. destruct (optspace && (cat =? 10)); reflexivity.
   - destruct (digit_tok_inv _ _ Hd) as (cat & c & -> & Hm & Hin & _).
-    cbn [app read_sequence]. rewrite (expand1_plain lvl cat c Hm), Hin, IH. reflexivity.
+    cbn [app read_sequence]. rewrite (plain_not_stop cat c Hm), (expand1_plain lvl cat c Hm), Hin, IH. reflexivity.
 Qed.
 
 (* digit values: Python's int() on the digit string = positional value *)
@@ -277,12 +285,10 @@ Definition peek (lvl : Z) (s : list tok) : list tok :=
   | u :: r => match expand1 lvl u with Some u' => u' :: r | None => s end
   end.
 
-(* it exists in the Model and is not a register (a register after a decimal constant multiplies it: known finding) *)
-Definition no_register_next (lvl : Z) (s : list tok) : Prop :=
-  match s with
-  | [] => True
-  | u :: _ => exists u', expand1 lvl u = Some u' /\ match u' with Cs k _ => is_param k = false | Ch _ _ => True end
-  end.
+(* the token after the constant (and its optional blank) is not a register: a register there multiplies the constant
+   (kept by the maintainers for 5\mycount; TeX would read 5 and leave the register -- known finding) *)
+Definition no_register_next (s : list tok) : Prop :=
+  match s with [] => True | u :: _ => is_register u = false end.
 
 Lemma digit_stops_signs : forall set cat c, (forall x, memz x set = true -> memz x tex_hex = true) ->
   (cat = 11 \/ cat = 12) -> memz c set = true -> stops_signs (Ch cat c).
@@ -294,9 +300,9 @@ Qed.
 Theorem read_integer_dec : forall sr d ds rest lvl0,
   Forall (digit_tok tex_dec) (d :: ds) ->
   ends_run (lvl0 - 1) tex_dec rest ->
-  no_register_next (lvl0 - 1) (seq_rest (lvl0 - 1) true rest) ->
+  no_register_next (seq_rest (lvl0 - 1) true rest) ->
   read_integer true (print_signs sr ++ (d :: ds) ++ rest) lvl0 =
-  Ok (sign_value sr * pos_value 10 (codes (d :: ds))) (peek (lvl0 - 1) (seq_rest (lvl0 - 1) true rest)) lvl0.
+  Ok (sign_value sr * pos_value 10 (codes (d :: ds))) (seq_rest (lvl0 - 1) true rest) lvl0.
 Proof.
   intros sr d ds rest lvl0 Hds Hend Hnext.
   inversion Hds as [|d' ds' Hd Hds']; subst.
@@ -313,8 +319,7 @@ Proof.
   rewrite (int_of_pos_value 10 tex_dec _ Hsub Hds).
   replace (lvl0 - 1 + 1) with lvl0 by lia.
   destruct (seq_rest (lvl0 - 1) true rest) as [|u r2] eqn:Es; [reflexivity|].
-  cbn [peek]. destruct Hnext as (u' & He & Hu'). rewrite He.
-  destruct u' as [cat2 c2|k e]; [reflexivity|]. rewrite Hu'. reflexivity.
+  cbn [no_register_next] in Hnext. rewrite Hnext. reflexivity.
 Qed.
 
 Lemma pos_value_leading_zero : forall base ds, pos_value base (48 :: ds) = pos_value base ds.
@@ -386,7 +391,7 @@ Qed.
 
 (* the known finding, on the faithful Model: a decimal constant followed by a register is multiplied by it *)
 Theorem read_integer_register_after_decimal_refuted :
-  exists rest, read_integer true ([Ch 12 51] ++ rest) 0 <> Ok 3 (peek (-1) (seq_rest (-1) true rest)) 0.
+  exists rest, read_integer true ([Ch 12 51] ++ rest) 0 <> Ok 3 (seq_rest (-1) true rest) 0.
 Proof. exists [Cs (KCount 5) false]. vm_compute. discriminate. Qed.
 
 (* ================================================================ M2: exact value of printed dimensions *)
@@ -402,27 +407,42 @@ Proof.
   - destruct Hcat; lia.
 Qed.
 
-Lemma peek_idem : forall lvl s, peek lvl (peek lvl s) = peek lvl s.
+Lemma expand1_idem : forall lvl t t', expand1 lvl t = Some t' -> expand1 lvl t' = Some t'.
 Proof.
-  intros lvl [|u r]; [reflexivity|]. cbn [peek]. destruct (expand1 lvl u) as [u'|] eqn:E; cbn [peek]; [|rewrite E; reflexivity].
-  assert (expand1 lvl u' = Some u') as ->; [|reflexivity].
-  destruct u as [cat c|k e]; cbn [expand1] in E.
+  intros lvl t t' E. destruct t as [cat c|k e]; cbn [expand1] in E.
   - destruct (cat =? 1); [inversion E; reflexivity|]. destruct (cat =? 2); [inversion E; reflexivity|].
     destruct (has_macro cat) eqn:Hm; [discriminate|]. inversion E; subst. apply expand1_plain, Hm.
   - destruct e; [inversion E; reflexivity|]. destruct (is_param k && (0 <=? lvl)); [discriminate|]. inversion E. reflexivity.
 Qed.
 
-Lemma seq_rest_false : forall lvl s, ends_run lvl tex_dec s -> seq_rest lvl false s = peek lvl s.
+Lemma peek_idem : forall lvl s, peek lvl (peek lvl s) = peek lvl s.
 Proof.
-  intros lvl [|t r] H; [reflexivity|]. cbn [seq_rest peek]. destruct H as (t' & -> & _). destruct t'; reflexivity.
+  intros lvl [|u r]; [reflexivity|]. cbn [peek]. destruct (expand1 lvl u) as [u'|] eqn:E; cbn [peek]; [|rewrite E; reflexivity].
+  rewrite (expand1_idem _ _ _ E). reflexivity.
 Qed.
 
-(* the token after an integer part without a point is not a point either *)
+(* the token after an integer part without a point exists in the Model (readDecimal looks at it through the expanding iterator)
+   and is not a point *)
 Definition not_point_next (lvl : Z) (s : list tok) : Prop :=
   match s with
   | [] => True
-  | t :: _ => forall cat c, expand1 lvl t = Some (Ch cat c) -> is_point c = false
+  | t :: _ => exists t', expand1 lvl t = Some t' /\ forall cat c, t' = Ch cat c -> is_point c = false
   end.
+
+(* after the digits of an integer part: readSequence leaves the next token (expanded or not), readDecimal then expands it *)
+Lemma dec_tail : forall lvl rest, not_point_next lvl rest ->
+  match seq_rest lvl false rest with
+  | [] => rest = []
+  | u :: r2 => exists u', expand1 lvl u = Some u' /\ peek lvl rest = u' :: r2 /\ (forall cat c, u' = Ch cat c -> is_point c = false)
+  end.
+Proof.
+  intros lvl [|t r] H; [reflexivity|]. cbn [seq_rest not_point_next peek] in *. destruct H as (t' & He & Hp).
+  destruct (stops_unexpanded t).
+  - exists t'. rewrite He. auto.
+  - rewrite He. destruct t' as [cat c|k e]; cbn [andb].
+    + exists (Ch cat c). rewrite (expand1_idem _ _ _ He). auto.
+    + exists (Cs k e). rewrite (expand1_idem _ _ _ He). auto.
+Qed.
 
 Definition dec_rest (lvl : Z) (d : declit) (rest : list tok) : list tok :=
   match d_point d with Some _ => seq_rest lvl true rest | None => peek lvl rest end.
@@ -488,9 +508,9 @@ Proof.
     + (* ip . fp *)
       destruct (point_tok_inv p Hpt) as (cat2 & c2 & -> & Hm2 & Hp2 & Hnd2 & Hc10).
       assert (Hend2 : ends_run lvl tex_dec ((Ch cat2 c2 :: fp) ++ rest)).
-      { cbn [ends_run app]. exists (Ch cat2 c2). split; [apply expand1_plain, Hm2|exact Hnd2]. }
+      { cbn [ends_run app]. right. exists (Ch cat2 c2). split; [apply expand1_plain, Hm2|exact Hnd2]. }
       rewrite (read_sequence_run lvl tex_dec false ip' _ Hip' Hend2).
-      cbn [app seq_rest]. rewrite (expand1_plain _ _ _ Hm2). cbn [andb].
+      cbn [app seq_rest]. rewrite (plain_not_stop _ _ Hm2), (expand1_plain _ _ _ Hm2). cbn [andb].
       rewrite (expand1_plain _ _ _ Hm2), Hp2.
       rewrite (read_sequence_run lvl tex_dec true fp rest Hfp Hend).
       destruct (dec_of_value (Ch cat c :: ip') fp Hip Hfp) as (q & Hq & Hv).
@@ -501,30 +521,16 @@ Proof.
       rewrite Hq. exists (inject_Z (sign_value sr) * q)%Q. split; [reflexivity|]. rewrite Hv. reflexivity.
     + (* ip alone *)
       destruct Hpt as (_ & ->). cbn [app].
-      rewrite (read_sequence_run lvl tex_dec false ip' rest Hip' Hend), (seq_rest_false lvl rest Hend).
+      rewrite (read_sequence_run lvl tex_dec false ip' rest Hip' Hend).
       destruct (dec_of_value (Ch cat c :: ip') [] Hip (Forall_nil _)) as (q & Hq & Hv).
       change (c :: codes ip') with (codes (Ch cat c :: ip')).
       cbn [codes map] in Hq. change (map (fun t : tok => match t with Ch _ c0 => c0 | Cs _ _ => 0 end) ip') with (codes ip') in Hq.
       change (c :: codes ip') with (codes (Ch cat c :: ip')) in Hq.
-      destruct (peek lvl rest) as [|u r2] eqn:Ep.
-      * rewrite Hq. exists (inject_Z (sign_value sr) * q)%Q. split; [reflexivity|]. rewrite Hv. reflexivity.
-      * assert (Heu : expand1 lvl u = Some u).
-        { pose proof (peek_idem lvl rest) as Hi. rewrite Ep in Hi. cbn [peek] in Hi.
-          destruct (expand1 lvl u) as [u'|] eqn:E; [inversion Hi; subst; reflexivity|].
-          (* peek produced an unexpandable head: impossible, the head of rest expands (ends_run) *)
-          destruct rest as [|t r]; [discriminate|]. cbn [peek] in Ep. destruct Hend as (t' & Ht' & _). rewrite Ht' in Ep.
-          inversion Ep; subst. clear - Ht' E. exfalso.
-          destruct t as [ct cc|k e]; cbn [expand1] in Ht'.
-          - destruct (ct =? 1); [inversion Ht'; subst; discriminate|]. destruct (ct =? 2); [inversion Ht'; subst; discriminate|].
-            destruct (has_macro ct) eqn:Hm; [discriminate|]. inversion Ht'; subst. rewrite (expand1_plain _ _ _ Hm) in E. discriminate.
-          - destruct e; [inversion Ht'; subst; discriminate|]. destruct (is_param k && (0 <=? lvl)); [discriminate|].
-            inversion Ht'; subst. discriminate. }
-        rewrite Heu. destruct u as [cat2 c2|k e].
-        -- assert (Hnp2 : is_point c2 = false).
-           { specialize (Hnp eq_refl). destruct rest as [|t r]; [discriminate|]. cbn [peek] in Ep. cbn in Hnp.
-             destruct (expand1 lvl t) as [t'|] eqn:E; [|destruct Hend as (? & Hx & _); congruence].
-             inversion Ep; subst. apply (Hnp cat2 c2 eq_refl). }
-           rewrite Hnp2, Hq. exists (inject_Z (sign_value sr) * q)%Q. split; [reflexivity|]. rewrite Hv. reflexivity.
+      pose proof (dec_tail lvl rest (Hnp eq_refl)) as Ht.
+      destruct (seq_rest lvl false rest) as [|u r2].
+      * subst rest. rewrite Hq. exists (inject_Z (sign_value sr) * q)%Q. split; [reflexivity|]. rewrite Hv. reflexivity.
+      * destruct Ht as (u' & He & Hpk & Hnpt). rewrite He, Hpk. destruct u' as [cat2 c2|k e].
+        -- rewrite (Hnpt cat2 c2 eq_refl), Hq. exists (inject_Z (sign_value sr) * q)%Q. split; [reflexivity|]. rewrite Hv. reflexivity.
         -- rewrite Hq. exists (inject_Z (sign_value sr) * q)%Q. split; [reflexivity|]. rewrite Hv. reflexivity.
 Qed.
 
@@ -676,14 +682,14 @@ Proof.
     split; repeat (apply orb_false_iff; split); try (apply Z.eqb_neq; lia); reflexivity. }
   destruct n as [|m].
   - cbn [blanks repeat app]. repeat split.
-    + exists (Ch cat c). split; [apply expand1_plain, Hm|apply Hnd].
-    + intros cat' c' E. rewrite (expand1_plain _ _ _ Hm) in E. inversion E; subst. apply Hnd.
+    + right. exists (Ch cat c). split; [apply expand1_plain, Hm|apply Hnd].
+    + exists (Ch cat c). split; [apply expand1_plain, Hm|]. intros cat' c' E. inversion E; subst. apply Hnd.
     + exists O. cbn [peek]. rewrite (expand1_plain _ _ _ Hm). reflexivity.
-    + exists O. cbn [seq_rest]. rewrite (expand1_plain _ _ _ Hm).
+    + exists O. cbn [seq_rest]. rewrite (plain_not_stop _ _ Hm), (expand1_plain _ _ _ Hm).
       replace (cat =? 10) with false by (symmetry; apply Z.eqb_neq, Hc10). reflexivity.
   - cbn [blanks repeat app]. repeat split.
-    + exists blank. split; reflexivity.
-    + intros cat' c' E. cbn in E. inversion E; subst. reflexivity.
+    + right. exists blank. split; reflexivity.
+    + exists blank. split; [reflexivity|]. intros cat' c' E. inversion E; subst. reflexivity.
     + exists (S m). reflexivity.
     + exists m. reflexivity.
 Qed.
